@@ -250,14 +250,14 @@ def NoCancel (s : State) : Prop := ∀ c,
 theorem nocancel_init : NoCancel init := by
   intro c; simp [init]
 
-theorem nocancel_step {cfg : Cfg} {s s' : State} {e : Event} (hy : cfg.yieldBeforeSignal = true)
+theorem nocancel_step {cfg : Cfg} {s s' : State} {e : Event} (hy : cfg.yieldPolicy = .always)
     (h : NoCancel s) (hc : Coupling s) (hf : WFlags s) (hs : step cfg s e = some s') : NoCancel s' := by
   cases e
   all_goals open_step hs
   all_goals (intro c')
   all_goals (have := h c')
   all_goals (simp only [Coupling, WFlags, Worker.pristine] at hc hf)
-  all_goals ((try simp only [allPhase_iff] at *); unfold_setters)
+  all_goals ((try simp only [allPhase_iff, Cfg.yields, hy] at *); unfold_setters)
   all_goals (try (simp_all; done))
   all_goals (try grind [sentTo])
 
@@ -343,7 +343,7 @@ theorem inv_reachable {cfg : Cfg} {s : State} (h : Reachable cfg s) : Inv cfg s 
   obtain ⟨es, hr⟩ := h
   exact inv_run (inv_init cfg) hr
 
-theorem nocancel_reachable {cfg : Cfg} {s : State} (hy : cfg.yieldBeforeSignal = true) (h : Reachable cfg s) :
+theorem nocancel_reachable {cfg : Cfg} {s : State} (hy : cfg.yieldPolicy = .always) (h : Reachable cfg s) :
     NoCancel s := by
   obtain ⟨es, hr⟩ := h
   have key : ∀ (es : List Event) (s₀ : State), Inv cfg s₀ → NoCancel s₀ → run cfg s₀ es = some s → NoCancel s := by
@@ -477,8 +477,8 @@ theorem drain_all (cfg : Cfg) (w : Nat) : ∀ (q : List Nat) (s : State), (s.w w
     exact ⟨[.wDrainEnd w], _, by simp [run, step, hp, hq]; rfl, by simp⟩
   | cons c rest ih =>
     intro s hp hq
-    have h1 : step cfg s (.wDrain w c) = some (startConn s w c rest) := by simp [step, hq, hp]
-    obtain ⟨es, s', g1, g2⟩ := ih (startConn s w c rest) (by simp [startConn, hp]) (by simp [startConn])
+    have h1 : step cfg s (.wDrain w c) = some (startConn s w c rest true) := by simp [step, hq, hp]
+    obtain ⟨es, s', g1, g2⟩ := ih (startConn s w c rest true) (by simp [startConn, hp]) (by simp [startConn])
     exact ⟨.wDrain w c :: es, s', by simpa [run, h1] using g1, g2⟩
 
 theorem poll_all (cfg : Cfg) (w : Nat) : ∀ (l : List Nat) (s : State), (s.w w).phase = .drained →
